@@ -110,6 +110,6 @@ Proof. vm_compute. reflexivity. Qed.
 Definition narrow_cold : list view := [mkV 100 (100 + (4 # 1000000)) 2500000].
 Definition narrow_hot : list view := [mkV 150 200 1].
 Lemma window_refuted :
-  Qh_of (stage_model act_window narrow_hot narrow_cold []) == 0 /\ Qh_star narrow_hot narrow_cold == 10
+  Qc_of (stage_model act_window narrow_hot narrow_cold []) == 50 /\ Qc_star narrow_hot narrow_cold == 40
   /\ gaps_b act_window (grid_of (endpoints (narrow_hot ++ narrow_cold ++ []))) = false.
 Proof. vm_compute. repeat split; reflexivity. Qed.
